@@ -380,8 +380,9 @@ class TileCreator(object):
             return []
         if not self.meta_grid:
             created_tiles = self._create_single_tiles(tiles)
-        elif self.tile_mgr.minimize_meta_requests and len(tiles) > 1:
+        elif self.tile_mgr.minimize_meta_requests and len(tiles) > 1 and not self.bulk_meta_tiles:
             # use minimal requests only for mulitple tile requests (ie not for TMS)
+            # (and not in bulk mode: its sources only deliver single tiles, never a meta tile sized map)
             meta_tile = self.meta_grid.minimal_meta_tile([t.coord for t in tiles])
             created_tiles = self._create_meta_tile(meta_tile)
         else:
